@@ -12,7 +12,8 @@ def run(ctx):
                 "(b) size-parameterised recursion/growth shapes (PSShapes) run in child processes so that stack "
                 "exhaustion or absurd allocations are observed as process aborts; (c) every charstring token sequence up to "
                 "length 3/4 over an adversarial alphabet (T1Charstring is total), wrapped by the independent writer with "
-                "hostile lenIV values; (f) one byte replaced at every offset of every corpus file. A violation is a panic, a process "
+                "hostile lenIV values; (g) every PFB stream of MC_PFB (empty segments, all 65536 header values, every buffer-size "
+                "sequence); (f) one byte replaced at every offset of every corpus file. A violation is a panic, a process "
                 "abort or a hang; any returned result or error value is fine.")
     ctx.assumptions = ["MaxOps is set as the readers set it (1e6); cumulative memory growth over many operations is out of scope"]
     # (a)
@@ -36,6 +37,29 @@ def run(ctx):
     s3 = ctx.vh_json("replay-t1", "-isolate", vec, timeout=2400)
     pscommon.absorb(ctx, s3, "vh replay-t1 (hostile charstrings, lenIV)", "T1Charstring!T1Run total / type1.Read returns")
     ctx.extra["hostile_charstring_fonts"] = s3["vectors"]
+    # (g) the PFB decoder on every stream of MC_PFB (empty segments, odd headers, every buffer-size sequence
+    # and short-read pattern): only a panic or a hang counts here, what it outputs is C14's subject
+    from checks import c14
+    pv = c14.generate(ctx, "exh", "pfb-exh", invs=("ParseAgrees", "ClassAgrees"), max_segs=2, max_len=2, max_cap=4)
+    s5 = ctx.vh_json("replay-pfb", pv, timeout=2400)
+    hv = c14.generate(ctx, "hdr", "pfb-hdr", invs=("HdrExactly",))
+    s6 = ctx.vh_json("replay-pfb", hv, timeout=2400)
+    for sx, label in ((s5, "exh"), (s6, "hdr")):
+        ctx.evaluations += sx["vectors"]
+        ctx.traces += sx["vectors"]
+        ctx.nontrivial_extra += sx["vectors"]
+        shown = {}
+        for dg in (sx.get("disagreements") or []):
+            shown.setdefault(dg["sig"], dg)
+        for sig, n in (sx.get("by_sig") or {}).items():
+            if sig in ("pfb read: panic", "pfb read: hang"):
+                dg = shown.get(sig) or {}
+                ctx.violation(sig, "%s (%d vector(s))" % (dg.get("what", "pfb.Decode panics or hangs"), n),
+                              stimulus=dg.get("stimulus"), expected="a result or an error", observed=dg.get("observed"),
+                              how="vh replay-pfb (MC_PFB %s)" % label, spec="PFB!PfbRead total")
+    ctx.extra["pfb_streams"] = s5["vectors"] + s6["vectors"]
+    os.remove(pv)
+    os.remove(hv)
     # (f) structure-aware corruption of valid files
     s4 = ctx.vh_json("corrupt", ctx.tier, ctx.seed, timeout=2400)
     pscommon.absorb(ctx, s4, "vh corrupt", "readers are total")
